@@ -366,25 +366,34 @@ FetchBlockEntry(t, s) ==
 \* ---- key / value ----
 FetchKey(t, s) ==
   LET m == Mark(s) IN
-  IF s.flow = 0 /\ ~s.ska THEN Fail(s, "mapping keys are not allowed in this context")
+  IF s.flow = 0 /\ s.tse = m[1] THEN Fail(s, "tabs disallowed in this context")
+  ELSE IF s.flow = 0 /\ ~s.ska THEN Fail(s, "mapping keys are not allowed in this context")
   ELSE LET s1 == IF s.flow = 0 THEN RollIndent(s, m[3], -1, "BlockMappingStart", m) ELSE [s EXCEPT !.fms = TRUE]
            s2 == RemoveSK(s1)
        IN IF s2.err # "" THEN s2
-          ELSE LET s3 == SkipYamlWs(t, SkipNB([s2 EXCEPT !.ska = (s2.flow = 0)]), TRUE) IN
-               IF s3.err # "" THEN s3
-               ELSE IF Peek(t, s3, 0) = "\t" THEN Fail(s3, "tabs disallowed in this context")
-               ELSE Push(s3, Tok("Key", m, Mark(s3), <<>>, <<>>))
+          ELSE \* blanks (tabs included) and an optional comment; after a tab no block collection may start (tse)
+               LET r3 == SkipWsToEolR(t, SkipNB([s2 EXCEPT !.ska = (s2.flow = 0)]), TRUE)
+                   tabbed == r3.tabs /\ r3.s.flow = 0
+                   s3 == IF tabbed /\ r3.s.err = "" THEN [r3.s EXCEPT !.tse = r3.s.pos] ELSE r3.s
+               IN IF s3.err # "" THEN s3
+                  ELSE IF tabbed /\ Peek(t, s3, 0) = "-" /\ Peek(t, s3, 1) \in BlankZ THEN Fail(s3, "tabs disallowed in this context")
+                  ELSE LET s4 == IF Peek(t, s3, 0) \in Break \/ ~(r3.tabs \/ r3.ws) THEN SkipYamlWs(t, s3, TRUE) ELSE s3 IN
+                       IF s4.err # "" THEN s4
+                       ELSE Push(s4, Tok("Key", m, Mark(s4), <<>>, <<>>))
 
 FetchValue(t, s) ==
   LET sk == Last(s.sks)
       m == Mark(s)
       isifm == s.ifm # <<>> /\ ~s.fms
       s0 == SkipNB(IF isifm THEN [s EXCEPT !.ifm = SetLast(@, "I")] ELSE s)
-      \* a tab directly after ':' : skip blanks; error when no space was among them and a '-' or alpha follows
+      \* a tab directly after ':' : skip blanks; when no space was among them (block context) a "- " entry is an error at
+      \* once and the position is remembered (tse): an implicit key starting there is an error when its ':' is found
       rt == IF Peek(t, s0, 0) = "\t" THEN SkipWsToEolR(t, s0, TRUE) ELSE [s |-> s0, tabs |-> FALSE, ws |-> TRUE]
-      s1 == rt.s
-  IN IF s1.err # "" THEN s1
-     ELSE IF Peek(t, s0, 0) = "\t" /\ ~rt.ws /\ s1.flow = 0 /\ (Peek(t, s1, 0) = "-" \/ Peek(t, s1, 0) \in Alpha)
+      tabonly == Peek(t, s0, 0) = "\t" /\ ~rt.ws /\ rt.s.flow = 0
+      s1 == IF tabonly /\ rt.s.err = "" THEN [rt.s EXCEPT !.tse = rt.s.pos] ELSE rt.s
+  IN IF sk.possible /\ s.flow = 0 /\ s.tse = sk.mark[1] THEN FailAt(s, "':' must be followed by a valid YAML whitespace", sk.mark)
+     ELSE IF s1.err # "" THEN s1
+     ELSE IF tabonly /\ Peek(t, s1, 0) = "-" /\ Peek(t, s1, 1) \in BlankZ
      THEN Fail(s1, "':' must be followed by a valid YAML whitespace")
      ELSE IF sk.possible
      THEN LET p == sk.tn - s1.parsed
@@ -722,7 +731,7 @@ NextToken(t, s) ==
 
 ScanInit == [pos |-> 0, line |-> 1, col |-> 0, tokens |-> <<>>, parsed |-> 0, avail |-> FALSE,
              sks |-> <<>>, ska |-> TRUE, indent |-> -1, indents |-> <<>>, flow |-> 0, lw |-> TRUE,
-             fms |-> FALSE, ifm |-> <<>>, fcs |-> <<>>, adj |-> 0, ssp |-> FALSE, sep |-> FALSE, err |-> "", errmark |-> <<0, 0, 0>>]
+             fms |-> FALSE, ifm |-> <<>>, fcs |-> <<>>, tse |-> -1, adj |-> 0, ssp |-> FALSE, sep |-> FALSE, err |-> "", errmark |-> <<0, 0, 0>>]
 
 \* ---- invariants of the scanner state: each is the reason one panic site is safe (C01) ----
 \* simple_keys.last().unwrap() / .pop().unwrap(): one entry per flow level plus the stream's
